@@ -7,10 +7,10 @@ use serde_json::{json, Value};
 
 use crate::choices::Choices;
 use crate::engine::{GenCtx, Outcome, Params, Property, RunCtx, Tier};
-use crate::fmt::{format_text, opt, opt_bool};
+use crate::fmt::{format_text, opt, opt_bool, Opts};
 use crate::gen::conf::{gen_conf, ConfSpace};
 use crate::gen::prog::{gen_prog, render, ProgSpace, RenderOpts};
-use crate::lex::{lex, TK};
+use crate::lex::lex;
 use crate::props::common::*;
 
 pub struct C03;
@@ -66,6 +66,71 @@ pub fn comment_words(text: &str) -> Vec<String> {
     body.split_whitespace().map(|w| w.to_owned()).collect()
 }
 
+/// Vertically aligned lists (struct fields, struct-literal fields, enum discriminants) under the
+/// alignment thresholds: groups separated by blank lines, trailing and leading comments with
+/// ASCII and multi-byte text on first / middle / last elements of each group.
+fn gen_aligned(c: &mut Choices<'_>) -> Value {
+    const NAMES: &[&str] = &["a", "bb", "gamma_long", "d", "alpha", "x_coordinate", "größe", "n2"];
+    const WORDS: &[&str] = &["", " note", " größe über alles ok", " ünïcode ✓ ✓", " a longer remark about this element", " 日本語のコメント"];
+    let kind = c.below(3);
+    let groups = 1 + c.below(3);
+    let mut comments: Vec<Value> = vec![];
+    let mut next = 0usize;
+    let mut body = String::new();
+    let mut idx = 0usize;
+    for g in 0..groups {
+        if g > 0 {
+            body.push('\n');
+        }
+        let n = 1 + c.below(4);
+        for i in 0..n {
+            let name = format!("{}{idx}", NAMES[c.below(NAMES.len())]);
+            idx += 1;
+            let elem = match kind {
+                0 => format!("{name}: {}", *c.pick(&["u8", "Vec<String>", "Option<u16>"])),
+                1 => format!("{name}: {}", *c.pick(&["1", "compute(2)", "\"s\""])),
+                _ => format!("V{name} = {}", 1 + c.below(300)),
+            };
+            // leading comment on its own line
+            if c.chance(1, 6) {
+                let payload = format!("c{next}");
+                next += 1;
+                let text = format!("// {payload}{}", *c.pick(WORDS));
+                body.push_str(&format!("    {text}\n"));
+                comments.push(json!({"payload": payload, "text": text, "slot": "aligned-leading", "block": false}));
+            }
+            body.push_str(&format!("    {elem},"));
+            // trailing comment, most often on the last element of the group
+            let p_trailing = if i + 1 == n { 2 } else { 5 };
+            if c.chance(1, p_trailing) {
+                let payload = format!("c{next}");
+                next += 1;
+                let block = c.chance(1, 4);
+                let words = *c.pick(WORDS);
+                let text = if block { format!("/* {payload}{words} */") } else { format!("// {payload}{words}") };
+                body.push_str(&format!(" {text}"));
+                comments.push(json!({"payload": payload, "text": text, "slot": "aligned-trailing", "block": block}));
+            }
+            body.push('\n');
+        }
+    }
+    let src = match kind {
+        0 => format!("struct Foo {{\n{body}}}\n"),
+        1 => format!("fn f() {{\n    let v = Foo {{\n{body}    }};\n}}\n"),
+        _ => format!("enum E {{\n{body}}}\n"),
+    };
+    let mut opts: Opts = vec![];
+    let t = *c.pick(&["0", "5", "20", "40"]);
+    opts.push((if kind == 2 { "enum_discrim_align_threshold" } else { "struct_field_align_threshold" }.to_string(), t.to_string()));
+    if c.chance(1, 3) {
+        opts.push(("max_width".into(), (30 + c.below(90)).to_string()));
+    }
+    if c.chance(1, 4) {
+        opts.push(("hard_tabs".into(), "true".into()));
+    }
+    json!({"src": src, "opts": opts_to(&opts), "origin": "prog", "layout": 0, "comments": comments})
+}
+
 impl Property for C03 {
     fn id(&self) -> &'static str {
         "C03"
@@ -103,6 +168,9 @@ impl Property for C03 {
         Some(cell_case(&cell))
     }
     fn generate(&self, c: &mut Choices<'_>, _g: &GenCtx) -> Value {
+        if c.chance(1, 5) {
+            return gen_aligned(c);
+        }
         let p = gen_prog(
             c,
             &ProgSpace {
